@@ -738,6 +738,7 @@ func pickBestI16ModeRDParallel(enc *VP8Encoder, w *RowWorker, mbX, mbY int, seg 
 		}
 
 		score := RDScore(disto, totalRate, seg.LambdaI16)
+		score = verifhook.Score("i16", mode, score)
 		if score < bestScore {
 			bestScore = score
 			bestMode = uint8(mode)
@@ -926,6 +927,7 @@ func pickBestI4ModeRDParallel(w *RowWorker, srcBuf []byte, srcOff int, predBuf [
 		rate += int(VP8FixedCostsI4[topMode][leftMode][mode])
 
 		score := RDScore(disto, rate, seg.LambdaI4)
+		score = verifhook.Score("i4", mode, score)
 		if score < bestScore {
 			bestScore = score
 			bestMode = uint8(mode)
@@ -1027,6 +1029,7 @@ func pickBestI4ModeRDTrellisParallel(w *RowWorker, srcBuf []byte, srcOff int, pr
 		rate += int(VP8FixedCostsI4[topMode][leftMode][mode])
 
 		score := RDScore(disto, rate, seg.LambdaI4)
+		score = verifhook.Score("i4", mode, score)
 		if score < bestScore {
 			bestScore = score
 			bestMode = uint8(mode)
@@ -1119,6 +1122,7 @@ func pickBestUVModeRDParallel(enc *VP8Encoder, w *RowWorker, mbX, mbY int, seg *
 
 		disto := distoU + distoV
 		score := RDScore(disto, totalRate, seg.LambdaUV)
+		score = verifhook.Score("uv", mode, score)
 		if score < bestScore {
 			bestScore = score
 			bestMode = uint8(mode)
